@@ -400,6 +400,48 @@ func c06(c *Ctx) {
 		c.Check(good, "R7", "sdk/log|(*logger).Emit|OnEmit fan-out total", at(ix.M, fn.Pos()), "every processor sees every record", "a processor can be skipped: "+why)
 	}
 
+	// R9 hand-over only through the transactional dequeue
+	c.Rule("R9", "E5 who-may-call", "records leave the queue only through TryDequeue's write callback (EnqueueExport under the queue lock) or through Flush in Shutdown after the poller has stopped", 3)
+	{
+		enq := ix.Func("(*bufferExporter).EnqueueExport")
+		tryDq := ix.Func("(*queue).TryDequeue")
+		flush := ix.Func("(*queue).Flush")
+		if enq == nil || tryDq == nil || flush == nil {
+			c.Missing("R9", "sdk/log EnqueueExport / TryDequeue / Flush")
+		} else {
+			cnt := 0
+			for _, s := range ix.FindCalls(func(f *FuncInfo, call *ast.CallExpr) bool { return callToDecl(info, enq)(call) }) {
+				cnt++
+				// the enclosing literal must be the second argument of a TryDequeue call
+				inCB := false
+				if s.F.Lit != nil {
+					par := ix.Parent[s.F.Lit]
+					inspectNoLit(par.Body(), func(n ast.Node) bool {
+						if call, ok := n.(*ast.CallExpr); ok && callToDecl(info, tryDq)(call) && len(call.Args) == 2 && unparen(call.Args[1]) == ast.Expr(s.F.Lit) {
+							inCB = true
+						}
+						return true
+					})
+				}
+				// and its argument is the callback's own parameter (the dequeued slice)
+				argOK := false
+				if inCB {
+					call := s.N.(*ast.CallExpr)
+					if len(call.Args) == 1 && len(s.F.Lit.Type.Params.List) == 1 && len(s.F.Lit.Type.Params.List[0].Names) == 1 {
+						argOK = sameVar(info, call.Args[0], info.Defs[s.F.Lit.Type.Params.List[0].Names[0]])
+					}
+				}
+				c.Check(inCB && argOK, "R9", "sdk/log|"+ix.Outer(s.F).Name+"|EnqueueExport #"+itoa(cnt)+" only inside TryDequeue's write callback, on the dequeued slice", ix.at(s),
+					"copy, offer and removal are one critical section of the queue", "records are handed to the export buffer outside the transactional dequeue: a refused hand-over loses their place in the queue (re-ordering) or loses them")
+			}
+			for _, s := range ix.FindCalls(func(f *FuncInfo, call *ast.CallExpr) bool { return callToDecl(info, flush)(call) }) {
+				outer := ix.Outer(s.F)
+				c.Check(outer.Name == "(*BatchProcessor).Shutdown", "R9", "sdk/log|"+outer.Name+"|queue.Flush only in Shutdown", ix.at(s),
+					"the non-transactional drain runs only after the poller has stopped (ordering checked by R6)", "the queue is drained non-transactionally while the poller can still dequeue: records are re-ordered or lost when the export buffer is full")
+			}
+		}
+	}
+
 	// R8 Clone
 	c.Rule("R8", "E8 fieldcover", "Record.Clone re-allocates every slice/map field (= C17.R3)", 1)
 	ruleRecordClone(c, ix, "R8")
